@@ -154,7 +154,7 @@ Qed.
 (* ------------------------------------------------------------------ derived list answers *)
 Definition derived_lists_stmt (faces : list (list Z)) (m : mesh) (f : bool) : Prop :=
   (* corner -> face *)
-  (forall c, p_corner_to_face m f c = match sp_corner faces c with Some x => Ok (cf x) | None => Err EIndex end)
+  (forall c, 0 <= c -> p_corner_to_face m f c = match sp_corner faces c with Some x => Ok (cf x) | None => Err EIndex end)
   (* faces / edges around a vertex follow the corner ring / the vertex ring *)
   /\ (forall A l, p_vertex_to_corners m f A = Ok (Some l) -> (forall c, In c l -> valid_corner faces c) ->
                   p_vertex_to_faces m f A = Ok (map (sp_corner_face faces) l))
@@ -177,7 +177,7 @@ Lemma derived_lists nv faces m f T :
   wf_faces nv faces -> mesh_of nv faces m -> compute_connectivity m f = Ok T -> derived_lists_stmt faces m f.
 Proof.
   intros Hw Hm HT. unfold derived_lists_stmt. split; [|split; [|split; [|split]]].
-  - intros c. eapply corner_to_face_correct; eauto.
+  - intros c _. eapply corner_to_face_correct; eauto.
   - intros A l E Hv. eapply vertex_to_faces_correct; eauto.
   - intros A vs E. eapply vertex_to_edges_correct; eauto.
   - intros F lF Ez Hne.
@@ -190,9 +190,10 @@ Qed.
 
 (* ------------------------------------------------------------------ the remaining accessors *)
 Definition remaining_accessors_stmt (faces : list (list Z)) (m : mesh) (f : bool) : Prop :=
-  (forall F, p_face_to_vertices m f F = of_opt EIndex (zth faces F))
-  /\ (forall E, p_edge_to_vertices m f E = of_opt EIndex (zth (m_edges m) E))
-  /\ (forall E V, p_other_edge_end m f E V = sp_other_edge_end (m_edges m) E V)
+  (* ids are non-negative: Python's negative indices wrap around, which the model does not reproduce *)
+  (forall F, 0 <= F -> p_face_to_vertices m f F = of_opt EIndex (zth faces F))
+  /\ (forall E, 0 <= E -> p_edge_to_vertices m f E = of_opt EIndex (zth (m_edges m) E))
+  /\ (forall E V, 0 <= E -> p_other_edge_end m f E V = sp_other_edge_end (m_edges m) E V)
   /\ (forall F V lF, zth faces F = Some lF ->
         exists r, p_in_face_index m f F V = Ok r /\
           match r with
@@ -207,9 +208,9 @@ Lemma remaining_accessors nv faces m f T :
   wf_faces nv faces -> mesh_of nv faces m -> compute_connectivity m f = Ok T -> remaining_accessors_stmt faces m f.
 Proof.
   intros Hw Hm HT. unfold remaining_accessors_stmt. split; [|split; [|split; [|split; [|split]]]].
-  - intros F. eapply face_to_vertices_correct; eauto.
-  - intros E. eapply edge_to_vertices_correct; eauto.
-  - intros E V. eapply other_edge_end_correct; eauto.
+  - intros F _. eapply face_to_vertices_correct; eauto.
+  - intros E _. eapply edge_to_vertices_correct; eauto.
+  - intros E V _. eapply other_edge_end_correct; eauto.
   - intros F V lF Ez. eapply in_face_index_correct; eauto.
   - intros u v F. eapply opposite_face_inds_correct; eauto.
   - intros iF1 iF2 lF Ez. eapply common_edge_correct; eauto.
